@@ -182,7 +182,10 @@ Definition final_of (e : env) (c : hcfg) (t0 : Z) (tr : list label) : option hst
 
 (* ---------------------------------------------------------------- the persisted driver *)
 
-Inductive plabel := PCycle (ta tc tx te : Z) (r : raised) | PRestart.
+Inductive plabel :=
+  | PCycle (ta tc tx te : Z) (r : raised)
+  | PRestart
+  | PRepurpose.   (* the cause changed: State.with_purpose(reason, handlers=cause_handlers) re-purposes the record *)
 
 Record pstate := mkP {
   p_stored : option prec;        (* the handler's progress record on the object *)
@@ -195,6 +198,9 @@ Definition pinit (t0 : Z) : pstate := mkP None false t0 [].
 Definition pstep (e : env) (c : hcfg) (ps : pstate) (l : plabel) : option pstate :=
   match l with
   | PRestart => Some ps          (* nothing of a change handler's progress lives in memory *)
+  | PRepurpose =>                (* the record is read, re-purposed and stored again by the cycle of the new cause *)
+      Some (mkP (option_map (fun r => for_storage (with_purpose (state_for (p_clock ps) (Some r)))) (p_stored ps))
+                (p_closed ps) (p_clock ps) (p_log ps))
   | PCycle ta tc tx te r =>
       if p_closed ps then None else
       if (p_clock ps <=? ta) && (ta <=? tc) && (tc <=? tx) && (tx <=? te) then
